@@ -588,3 +588,130 @@ def verify_all(ctx, repo, prop="C16"):
     dsl.verify(ctx, repo, dsl.Registry(), prop, CONS + ".consensus", h_consensus, expect_covers=["consensus.generic-clade"])
     dsl.verify(ctx, repo, dsl.Registry(), prop, CONS + ".get_consensus_tree", h_pipeline, expect_covers=["pipeline.ran"])
     dsl.verify(ctx, repo, dsl.Registry(), prop, PT + ".get_tree_from_consensus_graph", h_consensus_labels, expect_covers=CLABEL_COVERS)
+    dsl.verify(ctx, repo, dsl.Registry(), prop, TU + "._clades", h_clades_rec, expect_covers=["clades.rec"])
+    dsl.verify(ctx, repo, dsl.Registry(), prop, TU + ".get_clades", h_get_clades, expect_covers=["get_clades.some-root", "get_clades.no-root"])
+
+
+# ------------------------------------------------------------------------------------------------------------ get_clades (tree/utils.py)
+
+
+TU = "phyclone.tree.utils"
+
+
+class SetExpr(Model):
+    """a set being built, kept as the list of its union components"""
+
+    def __init__(self):
+        self.parts = []
+        self.adds = []
+
+    def m_add(self, I, x):
+        self.adds.append(x)
+
+
+def h_clades_rec(I, fi):
+    """_clades(clades, node, tree): the clade of a node is the set of its own data indices united with the clades of its children
+    (by induction on the recursive calls); it is added to `clades` as a frozenset and returned."""
+    P = I.P
+    node = alg.sym("node", "Int")
+    cur = SetExpr()
+    made = []
+    I.registry.globals_override["set"] = lambda I_, *a: (made.append(1), cur)[1]
+    I.registry.globals_override["frozenset"] = lambda I_, x=(): ("frozen", x, tuple(x.parts) if isinstance(x, SetExpr) else None)
+    collected = SetExpr()
+
+    class DataSeq(Model):
+        def __init__(self, nd):
+            self.nd = nd
+
+        def for_loop(self, I_, lnode, fr):
+            e = Opaque("a-data-point")
+            e.a_idx = lambda I2: ("idx-of", e)
+            n0 = len(cur.adds)
+            I_.assign_target(lnode.target, e, fr)
+            I_.exec_block(lnode.body, fr)
+            ok = cur.adds[n0:] == [("idx-of", e)]
+            I_.P.check("clades.own-indices", ok, "every data point of the node contributes exactly its index", kind="post")
+            del cur.adds[n0:]
+            cur.parts.append(("own-indices", self.nd.key()))
+
+    class CladeOf(Model):
+        """result of the recursive call for a child (induction hypothesis: its clade)"""
+
+        def __init__(self, child):
+            self.child = child
+
+        def for_loop(self, I_, lnode, fr):
+            e = Opaque("a-member")
+            n0 = len(cur.adds)
+            I_.assign_target(lnode.target, e, fr)
+            I_.exec_block(lnode.body, fr)
+            ok = cur.adds[n0:] == [e]
+            I_.P.check("clades.child-members", ok, "every member of a child's clade is added", kind="post")
+            del cur.adds[n0:]
+            st["inner"] = ("clade-of", self.child.key())
+
+    st = {}
+    rec = []
+
+    def rec_call(I_, a, k, n):
+        rec.append(a)
+        return CladeOf(I_.to_num(a[1]))
+
+    I.registry.call_contracts[fi.qualname] = rec_call
+
+    class T(Model):
+        def m_get_data(self, I_, nd):
+            return DataSeq(I_.to_num(nd))
+
+        def m_get_children(self, I_, nd):
+            return Children(I_.to_num(nd))
+
+    class Children(Model):
+        def __init__(self, nd):
+            self.nd = nd
+
+        def for_loop(self, I_, lnode, fr):
+            c = alg.sym(I_.P.fresh_name("child"), "Int")
+            n_rec = len(rec)
+            I_.assign_target(lnode.target, c, fr)
+            st.pop("inner", None)
+            I_.exec_block(lnode.body, fr)
+            ok = len(rec) == n_rec + 1 and rec[-1][0] is collected and (I_.to_num(rec[-1][1]) - c).is_zero() and rec[-1][2] is tree and st.get("inner") == ("clade-of", c.key())
+            I_.P.check("clades.children", ok, "for every child the recursion runs on (same collection, that child, same tree) and the whole clade it returns is merged in", kind="post")
+            cur.parts.append(("clades-of-children", self.nd.key()))
+
+    tree = T()
+    out = I.call_function(fi, [collected, node, tree], {}, force_inline=True)
+    dsl.cover(I, "clades.rec")
+    want = [("own-indices", node.key()), ("clades-of-children", node.key())]
+    P.check("clades.value", out is cur and cur.parts == want and not cur.adds and len(made) == 1, "clade(node) = own data indices U clades of the children, and is what is returned", kind="post")
+    P.check("clades.recorded", collected.adds == [("frozen", cur, tuple(want))], "exactly this clade (frozen after it is complete) is added to the collection", kind="post")
+
+
+def h_get_clades(I, fi):
+    P = I.P
+    res = SetExpr()
+    I.registry.globals_override["set"] = lambda I_, *a: res
+    I.registry.globals_override["frozenset"] = lambda I_, x=(): ("frozen", x)
+    calls = []
+    I.registry.call_contracts[TU + "._clades"] = lambda I_, a, k, n: calls.append(a)
+    n = alg.sym("n_roots", "Int")
+    P.assume(P.z(n) >= 0)
+
+    class T(Model):
+        def a_roots(self, I_):
+            return SymSeq("roots", n, lambda i: alg.raw_app("root", I_.to_num(i), sort="Int"))
+
+    tree = T()
+    I.registry.generic_loops.add(fi.qualname)
+    out = I.call_function(fi, [tree], {}, force_inline=True)
+    gens = P.ghost.get("generic_indices", [])
+    if gens:
+        dsl.cover(I, "get_clades.some-root")
+        P.check("get_clades.every-top-level-clone", len(gens) == 1 and len(calls) == 1 and calls[0][0] is res and (I.to_num(calls[0][1]) - alg.raw_app("root", gens[0], sort="Int")).is_zero() and calls[0][2] is tree,
+                "the clades of every top-level clone's subtree are collected into one set", kind="post")
+    else:
+        dsl.cover(I, "get_clades.no-root")
+        P.check("get_clades.empty-tree", not calls and not P.feasible(P.z(n) != 0), "a tree without clones has no clade", kind="post")
+    P.check("get_clades.returns-frozen-collection", out == ("frozen", res), "the collection is returned as a frozenset", kind="post")
